@@ -8,7 +8,7 @@
    evictList (container/list)    c_entries, NEWEST FIRST (list front = head)
    items (map key -> element)    lookups walk c_entries (first entry with the key)
    weight  uint                  c_weight, arithmetic mod 2^64 written out (wadd / wsub)
-   maxWeight uint, maxSize int   c_max_weight, c_max_size : N  (negative sizes: see [new], [resize])
+   maxWeight uint, maxSize int   c_max_weight, c_max_size : N  (negative sizes: see [new], [resize], [resize_old])
    onEvict callback              every operation returns the list of (key, value) pairs the
                                  callback was called with, in call order
 
@@ -130,11 +130,14 @@ Section Wlru.
   Definition len (c : cache) : N := N.of_nat (length (c_entries c)).
   Definition weight (c : cache) : N := c_weight c.
 
-  (* Resize does not validate: with a negative maxSize the loop condition Len() > maxSize
-     never becomes false and the call does not return (None). *)
-  Definition resize (mw : N) (ms : Z) (c : cache) : option (cache * list (K * V) * N) :=
-    if z_neg ms then None
-    else Some (normalize (mkCache (c_entries c) (c_weight c) mw (z_to_N ms) (c_stuck c))).
+  (* Resize after fixes/C29.patch: a negative maxSize is treated as 0 ([z_to_N]), as the
+     constructor would not accept it and Resize has no error result. *)
+  Definition resize (mw : N) (ms : Z) (c : cache) : cache * list (K * V) * N :=
+    normalize (mkCache (c_entries c) (c_weight c) mw (z_to_N ms) (c_stuck c)).
+  (* Resize of the pinned tree: no validation; with a negative maxSize the loop condition
+     Len() > maxSize never becomes false and the call does not return (None). *)
+  Definition resize_old (mw : N) (ms : Z) (c : cache) : option (cache * list (K * V) * N) :=
+    if z_neg ms then None else Some (resize mw ms c).
 
   (* Purge ranges over the Go map: the callback order is unspecified (compared as a multiset);
      the model reports newest first.  weight -= e.weight for every item. *)
@@ -164,8 +167,7 @@ Section Wlru.
   Inductive res :=
   | RCount (n : N) | RVal (v : option V) | RBool (b : bool) | RKV (p : option (K * V))
   | RKeys (l : list K) | RNum (n : N) | RUnit
-  | RFoundCount (b : bool) (n : N) | RPrevCount (p : option V) (n : N)
-  | RDiverge.
+  | RFoundCount (b : bool) (n : N) | RPrevCount (p : option V) (n : N).
 
   (* step c o = (cache after, result, callback log of this operation) *)
   Definition step (c : cache) (o : op) : cache * res * list (K * V) :=
@@ -180,11 +182,7 @@ Section Wlru.
     | OKeys => (c, RKeys (keys c), [])
     | OLen => (c, RNum (len c), [])
     | OWeight => (c, RNum (weight c), [])
-    | OResize mw ms =>
-        match resize mw ms c with
-        | Some (c', lg, n) => (c', RCount n, lg)
-        | None => (c, RDiverge, [])
-        end
+    | OResize mw ms => let '(c', lg, n) := resize mw ms c in (c', RCount n, lg)
     | OPurge => let '(c', lg) := purge c in (c', RUnit, lg)
     | OContainsOrAdd k v w => let '(c', lg, b, n) := contains_or_add k v w c in (c', RFoundCount b n, lg)
     | OPeekOrAdd k v w => let '(c', lg, p, n) := peek_or_add k v w c in (c', RPrevCount p n, lg)
